@@ -114,7 +114,7 @@ def c01_cases(rng, tier):
         t = g.tree(ty)
         base = g.render(t)
         variants = [base, g.render(t, extra=0.3), ['('] + base + [')']]
-        cases.append({'decl': decl, 'exprs': [' '.join(v) for v in variants], 'tree': repr(t)[:300], 'kind': ty})
+        cases.append({'decl': decl, 'exprs': [' '.join(v) for v in variants], 'tree': repr(t)[:300], 'kind': ty, 'toks': base})
     # unparenthesised chains of operators of one level (left associativity) and of adjacent levels (the ladder)
     scal = ['০', '১', '২', '৩', '৮', '৪', 'সত্য', 'মিথ্যা', '"a"', '""', 'সং', 'বু', 'শব', 'শূন', 'তা', 'তা২', 'খালি']
     levels = [['|'], ['&'], ['==', '!='], ['<', '<=', '>', '>='], ['+', '-'], ['*', '/', '%']]
@@ -380,7 +380,11 @@ def c04_cases(rng, tier):
                 k = rng.random()
                 x = rng.choice(names)
                 val[0] += 1
-                if k < 0.25: lines.append('    ' * depth + 'নাম %s = %s;' % (x, bn(val[0]) if rng.random() < 0.7 else rng.choice(['[%s]', '@{"k" -> %s,}', '[[%s]]']) % bn(val[0])))
+                if k < 0.07:
+                    # the initialiser of a declaration reads the name being declared (the outer / previous binding) or another name
+                    y = rng.choice(names)
+                    lines.append('    ' * depth + 'নাম %s = %s;' % (x, rng.choice(['%s', '[%s]', '_টাইপ(%s)', '[%s, %s]' % (y, '%s')]) % x if rng.random() < 0.7 else y))
+                elif k < 0.25: lines.append('    ' * depth + 'নাম %s = %s;' % (x, bn(val[0]) if rng.random() < 0.7 else rng.choice(['[%s]', '@{"k" -> %s,}', '[[%s]]']) % bn(val[0])))
                 elif k < 0.3: lines.append('    ' * depth + 'নাম %s;' % x)
                 elif k < 0.5: lines.append('    ' * depth + '%s = %s;' % (x, bn(val[0])))
                 elif k < 0.75: lines.append('    ' * depth + 'দেখাও %s;' % x)
@@ -414,7 +418,7 @@ def c04_cases(rng, tier):
                         lines.append('    ' * depth + '%s(%s);' % (f, bn(val[0])))
         # mostly declared at top so that reads succeed
         for x in names:
-            if rng.random() < 0.8: lines.append('নাম %s = %s;' % (x, bn(rng.randint(100, 999))))
+            if rng.random() < 0.93: lines.append('নাম %s = %s;' % (x, bn(rng.randint(100, 999))))
         block(0, [rng.randint(6, 25)])
         for x in names: lines.append('দেখাও %s;' % x)
         cases.append({'src': prog(lines), 'kind': 'scopes'})
@@ -435,18 +439,18 @@ def c06_cases(rng, tier):
         for _ in range(rng.randint(3, 30 if tier == 'thorough' else 12)):
             k = rng.random()
             v = bn(rng.randint(10, 99))
-            if k < 0.15: lines.append('%s[%s] = %s;' % (rng.choice(['ক', 'খ']), rng.choice(['০', '৩', '৪', '-১']), v))
-            elif k < 0.3: lines.append('%s[১][%s] = %s;' % (rng.choice(['ক', 'খ']), rng.choice(['০', '১', '২']), v))
-            elif k < 0.4: lines.append('%s[২]["k"][%s] = %s;' % (rng.choice(['ক', 'খ']), rng.choice(['০', '১', '৫']), v))
+            if k < 0.15: lines.append('%s[%s] = %s;' % (rng.choice(['ক', 'খ']), rng.choice(['০', '৩', '০', '৩', '০', '৩', '৪', '-১']), v))
+            elif k < 0.3: lines.append('%s[১][%s] = %s;' % (rng.choice(['ক', 'খ']), rng.choice(['০', '১', '০', '১', '০', '১', '২']), v))
+            elif k < 0.4: lines.append('%s[২]["k"][%s] = %s;' % (rng.choice(['ক', 'খ']), rng.choice(['০', '১', '০', '১', '০', '১', '৫']), v))
             elif k < 0.5: lines.append('%s["%s"] = %s;' % (rng.choice(['ঘ', 'র']), rng.choice(['k', 'new', 'n']), rng.choice([v, '[' + v + ']'])))
             elif k < 0.55: lines.append('র["l"][২]["r"]["%s"] = %s;' % (rng.choice(['z', 'y']), v))
             elif k < 0.65: lines.append('_লিস্ট-পুশ(%s, %s);' % (rng.choice(['গ', 'ছ', 'চ', 'জ', 'ক']), v))
-            elif k < 0.72: lines.append('_লিস্ট-পপ(%s);' % rng.choice(['গ', 'ছ', 'চ', 'জ']))
+            elif k < 0.68: lines.append('_লিস্ট-পপ(%s);' % rng.choice(['জ', 'জ', 'গ', 'চ']))
             elif k < 0.8: lines.append('জ = জ + %s;' % rng.choice(['গ', 'চ', '[' + v + ']']))
             elif k < 0.85: lines.append('সং = সং + ১;');
             elif k < 0.9: lines.append('শব = শব + "খ";')
             elif k < 0.95: lines.append('গ[০] = গ;' if rng.random() < 0.2 else 'গ[০] = [%s];' % v)
-            else: lines.append('ঘ["missing"]["x"] = ১;' if rng.random() < 0.3 else 'ক[১][৯] = ১;')
+            elif rng.random() < 0.3: lines.append('ঘ["missing"]["x"] = ১;' if rng.random() < 0.3 else 'ক[১][৯] = ১;')
             if 'গ[০] = গ;' in lines: break        # cyclic value: printing it would not terminate
             if rng.random() < 0.08: lines += P2.record_reuse_lines(rng)
             if rng.random() < 0.08: lines += ['নাম ঝ = %s + %s;' % (rng.choice(['একই(গ)', '(গ)', 'ক[১]', 'গ + []', '[] + গ']), rng.choice(['চ', '[]', '[%s]' % v])), '_লিস্ট-পুশ(ঝ, %s);' % v, 'দেখাও ঝ;']
@@ -468,21 +472,30 @@ def c16_cases(rng, tier):
     for _ in range(n):
         lines = ['নাম ল = [];', 'নাম ল২ = ল;']
         length = 0
-        for _ in range(rng.randint(1, 40 if tier == 'thorough' else 15)):
+        steps = rng.randint(1, 40 if tier == 'thorough' else 15)
+        # an invalid operation ends the program: at most one, as the last operation (half of the programs have one)
+        bad_at = steps - 1 if rng.random() < 0.5 else -1
+        for step in range(steps):
             k = rng.random()
             v = bn(rng.randint(0, 99))
             target = rng.choice(['ল', 'ল২'])
-            pos_choices = ['০', bn(length // 2), bn(max(0, length - 1)), bn(length), bn(length + 1), '-১', '০.৫', '১০০০০০০০০০০০০০০০০০০০০০', '০ / ০', '"a"']
-            if k < 0.3: lines.append('_লিস্ট-পুশ(%s, %s);' % (target, v)); length += 1
-            elif k < 0.5: lines.append('_লিস্ট-পুশ(%s, %s, %s);' % (target, rng.choice(pos_choices), v)); length += 1
-            elif k < 0.6: lines.append('_লিস্ট-পপ(%s);' % target); length = max(0, length - 1)
-            elif k < 0.75: lines.append('_লিস্ট-পপ(%s, %s);' % (target, rng.choice(pos_choices))); length = max(0, length - 1)
-            elif k < 0.85: lines.append('%s[%s] = %s;' % (target, rng.choice(pos_choices[:6]), v))
-            elif k < 0.9: lines.append('ল = ল + [%s];' % v); lines.append('ল২ = ল;'); length += 1
-            elif k < 0.95: lines.append('_লিস্ট-পুশ(%s);' % rng.choice(['"না"', '৫', 'ল', '']))
-            else: lines.append('_লিস্ট-পপ(%s);' % rng.choice(['"না"', '', 'ল, ০, ১']))
+            bad_pos = [bn(length + 1), bn(length + 2), '-১', '-০.৫', '১০০০০০০০০০০০০০০০০০০০০০', '০ / ০', '১ / ০', '"a"', 'সত্য', '[০]']
+            if step == bad_at:
+                lines.append(rng.choice(['_লিস্ট-পুশ(%s, %s, %s);' % (target, rng.choice(bad_pos), v), '_লিস্ট-পপ(%s, %s);' % (target, rng.choice(bad_pos + [bn(length)])), '%s[%s] = %s;' % (target, rng.choice(bad_pos[:7] + [bn(length)]), v),
+                                         '_লিস্ট-পুশ(%s);' % rng.choice(['"না"', '৫', 'ল', '']), '_লিস্ট-পপ(%s);' % rng.choice(['"না"', '', 'ল, ০, ১']), 'দেখাও ল[%s];' % rng.choice(bad_pos[:7] + [bn(length)]), '_লিস্ট-পপ([]);' if length == 0 else '_লিস্ট-লেন(ল, ল);']))
+            else:
+                def pos(hi):      # a valid position in 0..hi, sometimes fractional (truncated) or written as an expression
+                    q = rng.randint(0, max(0, hi))
+                    return rng.choice([bn(q), bn(q), '%s.৫' % bn(q) if q < hi else bn(q), '%s + ০' % bn(q), '_লিস্ট-লেন(ল) - %s' % bn(length - q)])
+                if k < 0.3: lines.append('_লিস্ট-পুশ(%s, %s);' % (target, v)); length += 1
+                elif k < 0.55: lines.append('_লিস্ট-পুশ(%s, %s, %s);' % (target, pos(length), v)); length += 1
+                elif k < 0.65 and length > 0: lines.append('_লিস্ট-পপ(%s);' % target); length -= 1
+                elif k < 0.8 and length > 0: lines.append('_লিস্ট-পপ(%s, %s);' % (target, pos(length - 1))); length -= 1
+                elif k < 0.9 and length > 0: lines.append('%s[%s] = %s;' % (target, pos(length - 1), v))
+                elif k < 0.95: lines.append('ল = ল + [%s];' % v); lines.append('ল২ = ল;'); length += 1
+                else: lines.append('_লিস্ট-পুশ(%s, [%s]);' % (target, v)); length += 1
             lines.append('দেখাও ল; দেখাও _লিস্ট-লেন(ল২);')
-        cases.append({'src': prog(lines), 'kind': 'listops', 'keep_going': True})
+        cases.append({'src': prog(lines), 'kind': 'listops'})
     for src in P2.concat_fresh_programs(rng, 60):
         cases.append({'src': src, 'kind': 'concat-fresh'})
     cases += P4.expression_statement_programs(rng, 60 if tier != 'thorough' else 400)
@@ -568,6 +581,7 @@ FAULTS = [('type', '১ + "a"'), ('type', '"a" * ২'), ('type', '-"a"'), ('type
           ('builtin', '_লিস্ট-পপ(তা, ২)'), ('builtin', '_লিস্ট-পপ([১], ১)'), ('builtin', '_লিস্ট-পপ([], ০)'), ('builtin', '_লিস্ট-পপ(তা, _লিস্ট-লেন(তা))'),
           ('builtin', '_লিস্ট-পুশ(তা, ৩, ০)'), ('builtin', '_লিস্ট-পুশ(তা, -১, ০)'), ('builtin', '_লিস্ট-পুশ([], ১, ০)'), ('index', 'তা[২]'), ('index', 'তা[_লিস্ট-লেন(তা)]')]
 FAULTS += P3.EXTRA_FAULTS
+BUILTIN_FAULTS = P4.builtin_argument_faults()
 
 
 def c13_cases(rng, tier):
@@ -640,7 +654,10 @@ def c13_cases(rng, tier):
                     cases.append({'src': prog(['দেখাও "মূল";', 'মডিউল ম = "mods/lib.pakhi";', 'দেখাও "মূল পরে";']), 'files': [('mods/lib.pakhi', prog(body))], 'kind': 'fault stale-name module'})
                 else:
                     cases.append({'src': prog(body), 'kind': 'fault stale-name'})
-    cases += P3.negative_fraction_write_programs()
+    cases += P3.negative_fraction_write_programs() + P4.statement_fault_programs()
+    # every built-in with wrong argument counts / types, in two plain positions
+    for fk, fe in (BUILTIN_FAULTS if tier == 'thorough' else rng.sample(BUILTIN_FAULTS, 160)):
+        cases.append({'src': prog(pre + ['ফাং ফ() {', '} ফেরত;', 'দেখাও "১";', 'নাম ফল = %s;' % fe, 'দেখাও _টাইপ(ফল);', 'দেখাও "পরে";']), 'kind': 'fault builtin-args'})
     cases += P4.assignment_order_programs(rng, 100 if tier != 'thorough' else 600) + P4.higher_order_programs(rng, 40 if tier != 'thorough' else 300)
     # structural faults
     for s in [['}'], ['যদি মিথ্যা {'], ['অথবা {', '}'], ['ফাং ফ() {'], ['ফাং ফ()', 'দেখাও ১;'], ['লুপ {', '}'], ['ফেরত ১;'], ['ফাং', 'দেখাও ১;'], ['যদি মিথ্যা', 'দেখাও ১;']]:
@@ -850,7 +867,7 @@ def c14_cases(rng, tier):
                     'ফাং বাড়াও() {', '    মান = মান + ১;', '    _লিস্ট-পুশ(তালিকা, মান);', '    ফেরত দেখ();', '} ফেরত;', 'দেখাও "লোড %s";' % bn(i), 'দেখাও _টাইপ(_প্ল্যাটফর্ম);', 'দেখাও _লিস্ট-লেন(তালিকা);',
                     # a parameter and a block local spelled like the module's own top-level variable shadow it (inside a module
                     # every one of these names carries the alias prefix)
-                    'ফাং ছায়া(মান, তালিকা) {', '    নাম ফল = মান * ২;', '    মান = মান + ১০০;', '    ফেরত [ফল, মান, তালিকা];', '} ফেরত;', 'দেখাও ছায়া(৭, "প");', 'দেখাও ছায়া(৮);',
+                    'ফাং ছায়া(মান, তালিকা) {', '    নাম ফল = মান * ২;', '    মান = মান + ১০০;', '    ফেরত [ফল, মান, তালিকা];', '} ফেরত;', 'দেখাও ছায়া(৭, "প");', 'নাম ছফ = ছায়া(৮);', 'দেখাও [ছফ[০], ছফ[১], _টাইপ(ছফ[২])];',
                     '{', '    নাম মান = ৯৯;', '    দেখাও মান;', '    {', '        মান = মান + ১;', '        দেখাও মান;', '    }', '}', 'দেখাও মান;']
             if rng.random() < 0.7:
                 body.append('দেখাও _রিড-ফাইল(_ডাইরেক্টরি + "data%s.txt");' % bn(i))
